@@ -1,4 +1,5 @@
 import SSVerif.Proofs.Hist
+import SSVerif.Props.C01Search
 /-!
 # C01 — Recognition results are sentences of the active grammar
 
@@ -257,5 +258,28 @@ example : wfHistB exG exHdead 4 = true := by decide
 example : nullCandidates 10 exG (exHdead.pop) 2 = [⟨some 1, 3, -31, 2, 0, []⟩] := by decide
 example : hyp exBase exG exHdead 4 true = (none, 0) := by decide
 example : (hyp exBase exG exHdead 4 false).1 = some [0] := by decide
+
+/-! ### growth stage (M10): `WFHist` is no longer only a checked precondition
+
+`Props/C01Search.lean` proves that the token-passing search (`fsg_search_start`, any number of
+`fsg_search_step`s, `fsg_search_finish` + the next utterance — `SSVerif.Search.Reachable`) over any lextree
+satisfying `LexTreeOK` only produces well-formed tables (`C01_step_preserves_WFHist`,
+`C01_reachable_WFHist`, `C01_word_exit_meets_EntryOK`, `C01_finish_clears_search`).  Composed with the
+theorems above: -/
+
+/-- **C01, composed with the growth stage.**  In every state the modelled search can reach — and after
+`fsg_search_finish`, which leaves table and frame counter alone — what `fsg_search_hyp` /
+`fsg_search_seg_iter` report for a final query is a sentence of the grammar as loaded, and a partial query
+reports the labels of a path leaving its start state. -/
+theorem C01_reachable_result_in_loaded_grammar {sh : Nat} {lt : SSVerif.Search.LexTree} {s : SSVerif.Search.SState}
+    (lok : SSVerif.Search.LexTreeOK lt g) (hr : SSVerif.Search.Reachable sh lt g s) (shift : Nat) (base : Nat → Nat)
+    {G : Nfa} (hp : projB g.toNfa G (proj g base) = true) :
+    (∀ ws, (hyp base g (SSVerif.Search.finish lt s).hist (SSVerif.Search.finish lt s).frame true).1 = some ws → Accepts G ws) ∧
+    (∀ ss, segs shift g s.hist s.frame true = some ss → Accepts G (segWords base g ss)) ∧
+    (∀ final ws, (hyp base g s.hist s.frame final).1 = some ws → ∃ r, Reach G G.start ws r) :=
+  have wf := (SSVerif.Search.C01_reachable_WFHist lok hr).1
+  ⟨(C01_reported_sentence_in_loaded_grammar wf shift base hp).1,
+   (C01_reported_sentence_in_loaded_grammar wf shift base hp).2,
+   fun final => C01_partial_in_loaded_grammar wf base hp final⟩
 
 end SSVerif.Hist
